@@ -11,7 +11,7 @@ func init() {
 	big := engine.Options{Budget: 5_000_000, MaxPaths: 2_000_000}
 	Register(&Check{
 		ID:       "C05",
-		Custom:   flagInvariance,
+		Custom:   c05Custom,
 		Level:    "model_checking",
 		Patterns: []string{".", "./internal/coq"},
 		Overrides: map[string]string{
